@@ -211,45 +211,49 @@ func c08ConfigFiles(c *Ctx, l *c08Layout) {
 	defaults := []lst{{}, mk(), mk("^" + R + "/pub/"), mk("^/.*", "!^"+R+"/sec/")}
 	defaults[1].json = "[]"
 	own := []lst{{}, {true, nil, "[]"}, {true, nil, "null"}, mk("^" + R + "/sec/"), mk("!^/.*"), mk("^/.*", "!\\.log$")}
-	for di, d := range defaults {
-		for oi, o := range own {
-			var users []string
-			users = append(users, `"bob": ["^/.*"]`)
-			if o.present {
-				users = append(users, `"alice": `+o.json)
-			}
-			perm := `"Users": {` + strings.Join(users, ", ") + `}`
-			if d.present {
-				perm = `"Default": ` + d.json + `, ` + perm
-			}
-			cfgText := `{"Server": {"Permissions": {` + perm + `}}}`
-			path := WriteScratch(fmt.Sprintf("c08/config-%d-%d.json", di, oi), cfgText)
-			args := DefaultArgs()
-			args.Logger = "none"
-			args.LogLevel = "error"
-			args.ConfigFile = path
-			config.Setup(source.Server, &args, nil)
-			effective := []string{"^/.*"}
-			if d.present {
-				effective = d.rules
-			}
-			if o.present {
-				effective = o.rules
-			}
-			u, err := userserver.New("alice", "harness")
-			for _, p := range l.Paths {
-				got := err == nil && u.HasFilePermission(p, "readfiles")
-				want := c08Reference(effective, l.Resolve[p])
-				key := ""
-				if l.Resolve[p] != "" {
-					key = "cfg|" + cfgText + "|" + p
+	// (key under Permissions.Users, name the user logs in with): the key is looked up exactly as written
+	names := [][2]string{{"alice", "alice"}, {"OpsTeam", "OpsTeam"}, {"alice", "Alice"}, {"Alice", "alice"}, {"jdoe", "JDOE"}, {"a-b_c.d", "a-b_c.d"}, {"ALICE", "ALICE"}}
+	for ni, nm := range names {
+		for di, d := range defaults {
+			for oi, o := range own {
+				var users []string
+				users = append(users, `"bob": ["^/.*"]`)
+				if o.present {
+					users = append(users, `"`+nm[0]+`": `+o.json)
 				}
-				c.Count(key)
-				if got != want {
-					sig := "config-file-rules-not-applied"
-					c.Violation(sig, fmt.Sprintf("configuration file %s loaded by config.Setup: user alice, requested %q which resolves to %q: permission %v; the list that applies to alice is %q, which says %v",
-						strings.ReplaceAll(cfgText, R, "R"), strings.Replace(p, l.Root, "R", 1), strings.Replace(l.Resolve[p], l.Root, "R", 1), got, effective, want), c08Case{effective, o.present, p})
-					break
+				perm := `"Users": {` + strings.Join(users, ", ") + `}`
+				if d.present {
+					perm = `"Default": ` + d.json + `, ` + perm
+				}
+				cfgText := `{"Server": {"Permissions": {` + perm + `}}}`
+				path := WriteScratch(fmt.Sprintf("c08/config-%d-%d-%d.json", ni, di, oi), cfgText)
+				args := DefaultArgs()
+				args.Logger = "none"
+				args.LogLevel = "error"
+				args.ConfigFile = path
+				config.Setup(source.Server, &args, nil)
+				effective := []string{"^/.*"}
+				if d.present {
+					effective = d.rules
+				}
+				if o.present && nm[0] == nm[1] {
+					effective = o.rules
+				}
+				u, err := userserver.New(nm[1], "harness")
+				for _, p := range l.Paths {
+					got := err == nil && u.HasFilePermission(p, "readfiles")
+					want := c08Reference(effective, l.Resolve[p])
+					key := ""
+					if l.Resolve[p] != "" {
+						key = "cfg|" + nm[1] + "|" + cfgText + "|" + p
+					}
+					c.Count(key)
+					if got != want {
+						sig := "config-file-rules-not-applied"
+						c.Violation(sig, fmt.Sprintf("configuration file %s loaded by config.Setup: user %s, requested %q which resolves to %q: permission %v; the list that applies to this user is %q, which says %v",
+							strings.ReplaceAll(cfgText, R, "R"), nm[1], strings.Replace(p, l.Root, "R", 1), strings.Replace(l.Resolve[p], l.Root, "R", 1), got, effective, want), c08Case{effective, o.present, p})
+						break
+					}
 				}
 			}
 		}
